@@ -15,7 +15,7 @@ TNext == /\ l < Len(TraceLog)
             bad' = bad \cup (IF rec.ev.act = "Status" /\ rec.status \notin Allowed(rec.ev)
                              THEN {[tr |-> rec.tr, i |-> rec.i,
                                     v |-> [p |-> "C14", f |-> "status_" \o rec.status \o "_but_" \o AgeClass(rec.ev),
-                                           d |-> rec.ev.t \o ":" \o SubClass(rec.ev)]]}
+                                           d |-> rec.ev.t \o ":" \o SubClass(rec.ev) \o (IF rec.ev.lag > 0 THEN ":stored_late" ELSE "")]]}
                              ELSE {})
 TSpec == TInit /\ [][TNext]_<<l, bad, evlog>>
 Done == (l = Len(TraceLog)) => JsonSerialize("result.json", [n |-> l, steps |-> l - 1, bad |-> bad, div |-> {}])
